@@ -47,7 +47,16 @@ func ExtraLeaves() []*Node {
 		Group("g", Group("h", Or(T(Word("x")), T(Wild("y*"))))), Group("g", Must(T(Word("x")))), Group("g", FuzzyN(T(Word("x")), 2)),
 		Group("g", Range("n", Int(1), Int(5), true)), Group("g", And(F("h", Word("x")), Not(T(Int(2))))),
 		List("s", Escaped("a b"), Phrase("c"), Float("1.5")),
+		// unlike brackets: both spellings are exclusive ranges
+		MixedRange("n", Int(1), Int(5), 1), MixedRange("n", Int(1), Int(5), 2), MixedRange("s", Word("aa"), Open(), 1), MixedRange("n", Open(), Float("2.5"), 2),
 	}
+}
+
+// MixedRange is an exclusive range written with unlike brackets (1: [ … }, 2: { … ]).
+func MixedRange(field string, lo, hi Value, mixed int) *Node {
+	n := Range(field, lo, hi, false)
+	n.Mixed = mixed
+	return n
 }
 
 // QuickLeaves is a representative sub-alphabet.
